@@ -272,6 +272,24 @@ def run(ck, facts):
     okf = len(fin) == 1 and [C.strip(a).get("n") for a in fin[0]["a"]] == ["next_offset", "max_align"]
     ck.expect(okf, "R3", "struct_field_info/final-layout", "Layout(next_offset, max_align)", "the struct layout is not built from (next_offset, max_align)", C.loc(s))
 
+    # accumulators start from the neutral element and are updated only by the statements analysed above
+    inits = {}
+    for n in C.walk(body):
+        if n.get("k") == "letst" and isinstance(n.get("pat"), dict) and n["pat"].get("n") in ("max_align", "next_offset", "prev_align") and n.get("init"):
+            i0 = C.strip(n["init"])
+            inits[n["pat"]["n"]] = i0.get("v") if i0.get("k") == "lit" else "<%s>" % (i0.get("k") if i0.get("k") != "mcall" else "call " + i0.get("m", "?"))
+    ok_init = str(inits.get("next_offset")) == "0" and str(inits.get("max_align")) in ("0", "1") and str(inits.get("prev_align")) == "1"
+    ck.expect(ok_init, "R3", "struct_field_info/accumulator-init", str(inits),
+              "accumulators do not start neutral (%s; expected next_offset = 0, max_align = 0 or 1, prev_align = 1): every struct would get a minimum alignment/offset rustc's repr(C) layout does not have" % inits, C.loc(s))
+    writes = {"max_align": 0, "next_offset": 0}
+    for n in C.walk(body):
+        if n.get("k") in ("assign", "assignop"):
+            tgt = C.strip(n["l"]).get("n")
+            if tgt in writes:
+                writes[tgt] += 1
+    ck.expect(writes == {"max_align": 1, "next_offset": 3}, "R3", "struct_field_info/accumulator-writes", str(writes),
+              "max_align / next_offset are written %s times (expected the running max once; padding, size and trailing padding): an update outside the analysed statements" % writes, C.loc(s))
+
     # ---------------- R4 typed arrays
     f = tool.fn("js::formatter::JSFormatter::fmt_primitive_slice")
     tab, _ = T.prim_table(f, adts)
